@@ -32,14 +32,16 @@ KERNELS_OF = {
 NP_OF = {
     'C14': [('UtilsTests', ['is_quadratic', 'is_transition_matrix', 'is_ergodic', 'is_fuzzy_ergodic', 'ergodic_mask'])],
     'C04': [('UtilsTests', ['is_ergodic', 'ergodic_mask']), ('MsmNorm', ['row_normalize_matrix', 'equilibrium_population'])],
-    'C01': [('MsmNorm', ['row_normalize_matrix'])],
+    'C01': [('MsmNorm', ['row_normalize_matrix']), ('MsmEstimate', ['estimate_markov_model_perm', 'estimate_markov_model_default'])],
     'C03': [('StateTrajHS', ['_estimate_markov_model']), ('MsmNorm', ['row_normalize_matrix'])],
     'C09': [('MsmTests', ['_calc_times'])],
     'C19': [('PlotCkTest', ['_split_array'])],
     'C05': [('MdCoringApi', ['dynamical_coring'])],
+    'C20': [('UtilsFiltering', ['runningmean'])],
+    'C16': [('IoLimits', ['open_limits_file'])],
     'C06': [('MdTimesApi', ['estimate_waiting_times', 'estimate_paths'])],
     'C13': [('MdCompareApi', ['compare_discretization_symmetric', 'compare_discretization_directed'])],
-    'C07': [('MsmCummat', ['_get_cummat'])],
+    'C07': [('MsmCummat', ['_get_cummat']), ('MsmMcmcApi', ['propagate_MCMC'])],
     'C08': [('MsmCummat', ['_get_cummat']), ('MsmTimes', ['estimate_times_list', 'estimate_times_hist']), ('StateTrajBase', ['state_to_idx'])],
 }
 for _pid, _mods in NP_OF.items():
@@ -49,6 +51,7 @@ SOURCE_OF = {'MsmMsm': 'msm/msm.py', 'MdCorrections': 'md/corrections.py', 'MdTi
              'MsmTimescales': 'msm/timescales.py', 'MdComparison': 'md/comparison.py', 'UtilsUtils': 'utils/_utils.py',
              'UtilsTests': 'utils/tests.py', 'MsmNorm': 'msm/msm.py', 'PlotCkTest': 'plot/_ck_test.py', 'MsmTests': 'msm/tests.py',
              'StateTrajHS': 'statetraj.py', 'MsmCummat': 'msm/timescales.py', 'MsmTimes': 'msm/timescales.py', 'StateTrajBase': 'statetraj.py',
+             'MsmEstimate': 'msm/msm.py', 'MsmMcmcApi': 'msm/timescales.py', 'UtilsFiltering': 'utils/filtering.py', 'IoLimits': 'io.py',
              'MdCompareApi': 'md/comparison.py', 'MdTimesApi': 'md/timescales.py', 'MdCoringApi': 'md/corrections.py'}
 ATOL = 1e-8
 G = 1 << 53
@@ -218,6 +221,30 @@ def gen_cases(module, kernel, rng, n):
             else:
                 yield {'k': kernel, 'args': None, 'trajs': trajs, 'lag': rng.choice([-1, 0, 1, 2, 2, 3, 3, 4]), 'iterative': rng.random() < 0.5,
                        'lumped': rng.random() < 0.08, 'mode': 'py'}
+        elif module == 'MsmEstimate':
+            ns_ = rng.randint(1, 5)
+            trajs = [_traj(rng, rng.randint(0, 12), 0, ns_ - 1) for _ in range(rng.randint(1, 3))]
+            if not any(trajs):
+                trajs[0] = [0]
+            lag = rng.randint(1, 5)
+            if kernel.endswith('perm'):
+                yield {'k': kernel, 'args': [trajs, lag, ns_, sorted(rng.sample(range(-9, 40), ns_)), False], 'mode': 'py'}
+            else:
+                yield {'k': kernel, 'args': [trajs, lag, ns_, False], 'mode': 'py'}
+        elif module == 'MsmMcmcApi':
+            labs = sorted(rng.sample(range(-6, 30), rng.randint(1, 6)))
+            steps = rng.randint(1, 12)
+            chain_idx = [rng.randrange(len(labs)) for _ in range(steps)]
+            start = rng.choice(labs + [-1, 44])
+            yield {'k': kernel, 'args': [labs, rng.randint(1, 3), steps, start], 'chain': chain_idx, 'mode': 'py'}
+        elif module == 'UtilsFiltering':
+            n_ = rng.randint(1, 12)
+            arr = [rng.randint(-16, 16) / 4 for _ in range(n_)]
+            yield {'k': kernel, 'args': [[core.rat_str(v) for v in arr], rng.randint(1, 14)], 'floats': arr, 'mode': 'py'}
+        elif module == 'IoLimits':
+            lim = [rng.randint(0, 9) for _ in range(rng.randint(0, 5))]
+            total = sum(lim) + rng.choice([0, 0, 0, 1, -1])
+            yield {'k': kernel, 'args': [total, 7], 'oracle': {'opentxt': lim}, 'limits': lim, 'mode': 'py'}
         elif module == 'StateTrajBase':
             labs = sorted(rng.sample(range(-6, 30), rng.randint(1, 6)))
             yield {'k': kernel, 'args': [labs, rng.choice(labs + [rng.randint(-8, 32)])], 'mode': 'py'}
@@ -350,8 +377,15 @@ def real_one(module, case):
         except Exception as e:  # noqa
             inputs['oracle'] = {'peq_err': core.err_name(e)}
         fn = None
-    elif module == 'StateTrajBase':
+    elif module == 'MsmMcmcApi':
+        inputs = {'args': case['args'], 'oracle': {'choice': case['args'][0][0], 'cummat': [[['1']], [[0]]], 'propagate': case['chain']}}
+        fn = None
+    elif module == 'MsmEstimate':
         inputs, fn = None, None
+    elif module in ('StateTrajBase', 'UtilsFiltering', 'IoLimits'):
+        inputs, fn = None, None
+        if module != 'StateTrajBase':
+            fn = getattr(mod, 'runningmean' if module == 'UtilsFiltering' else 'open_limits')
     elif module in ('MdCompareApi', 'MdTimesApi', 'MdCoringApi'):
         import msmhelper as mh
         flag = bool(numba.config.DISABLE_JIT)
@@ -510,6 +544,31 @@ def real_one(module, case):
         if module == 'StateTrajBase':
             import msmhelper as mh
             return int(mh.StateTraj([np.array(a[0], dtype=np.int64)]).state_to_idx(a[1]))
+        if module == 'MsmEstimate':
+            if k.endswith('perm'):
+                T, perm = mod._estimate_markov_model([np.array(t, dtype=np.int64) for t in a[0]], a[1], a[2], np.array(a[3]))
+            else:
+                T, perm = mod._estimate_markov_model([np.array(t, dtype=np.int64) for t in a[0]], a[1], a[2])
+            return [[[core.rat_str(float(v)) for v in row] for row in T], [int(v) for v in perm]]
+        if module == 'UtilsFiltering':
+            return [core.rat_str(float(v)) for v in mod.runningmean(np.array(case['floats'], dtype=np.float64), a[1])]
+        if module == 'IoLimits':
+            saved = mod.opentxt
+            mod.opentxt = lambda _f: np.array(case['limits'], dtype=np.int64)
+            try:
+                return [int(v) for v in mod.open_limits(a[0], limits_file='limits.dat')]
+            finally:
+                mod.opentxt = saved
+        if module == 'MsmMcmcApi':
+            import msmhelper as mh
+            o_cm, o_pr, o_ch = mod._get_cummat, mod._propagate_MCMC, np.random.choice
+            mod._get_cummat = lambda trajs, lagtime: (np.array([[1.0]]), np.array([[0]]))
+            mod._propagate_MCMC = lambda cummat, start, steps: np.array(case['chain'], dtype=np.int32)
+            np.random.choice = lambda xs: xs[0]
+            try:
+                return [int(v) for v in mod.propagate_MCMC(mh.StateTraj([np.array(a[0], dtype=np.int64)]), a[1], a[2], start=a[3])]
+            finally:
+                mod._get_cummat, mod._propagate_MCMC, np.random.choice = o_cm, o_pr, o_ch
         if module in ('MsmTimes', 'MdCompareApi', 'MdTimesApi', 'MdCoringApi'):
             return case['_run']()
         if module == 'MsmCummat':
@@ -663,6 +722,11 @@ def same(case, real, gen):
                 if abs(fx - fy) > Fraction(1, 10 ** 14):
                     return False
         return True
+    if k == 'runningmean':
+        return len(r) == len(g) and all(abs(Fraction(x) - Fraction(y)) <= Fraction(1, 10 ** 13) for x, y in zip(r, g))
+    if k.startswith('estimate_markov_model_'):
+        return r[1] == g[1] and len(r[0]) == len(g[0]) and all(
+            len(a_) == len(b_) and all(abs(Fraction(x) - Fraction(y)) <= Fraction(1, 10 ** 15) for x, y in zip(a_, b_)) for a_, b_ in zip(r[0], g[0]))
     if k.startswith('compare_discretization_'):
         return abs(Fraction(r) - Fraction(g)) <= Fraction(1, 10 ** 12)
     if k == 'estimate_times_hist':
